@@ -274,6 +274,26 @@ def check_stack_discipline(chk, pm):
                 ok = isinstance(par.value, ast.List) and not par.value.elts and par in pm.prologue
             elif isinstance(par, (ast.UnaryOp,)) and isinstance(par.op, ast.Not):
                 ok = True
+            elif isinstance(par, ast.Subscript) and par.value is n and isinstance(par.slice, ast.Slice) and isinstance(getattr(par, 'ctx', None), ast.Load):
+                ok = True        # a read-only slice (copy) of the stack
+            elif isinstance(par, ast.Call) and isinstance(par.func, ast.Name) and par.func.id in pm.mod.funcs and n in par.args:
+                # the stack is handed to a module-level helper: accepted when the helper only reads that parameter
+                helper = pm.mod.funcs[par.func.id]
+                hp = [a.arg for a in helper.args.args]
+                ix = par.args.index(n)
+                if ix < len(hp):
+                    pname = hp[ix]
+                    ok = True
+                    for x in ast.walk(helper):
+                        if isinstance(x, ast.Name) and x.id == pname:
+                            xp = getattr(x, '_parent', None)
+                            xg = getattr(xp, '_parent', None)
+                            if isinstance(xp, ast.Attribute) and xp.attr in ('append', 'pop', 'clear', 'insert', 'extend', 'remove', 'sort', 'reverse'):
+                                ok = False
+                            if isinstance(xp, ast.Subscript) and isinstance(getattr(xp, 'ctx', None), (ast.Store, ast.Del)):
+                                ok = False
+                            if isinstance(x.ctx, ast.Store):
+                                ok = False
             if not ok:
                 bad.append(n)
     if bad:
@@ -378,7 +398,7 @@ def run(chk):
     chk.rule('C01.Q', 'sequencing / well-formed programs accepted')
     chk.rule('C01.C', 'function bodies are lowered into their own statement list')
     chk.rule('C01.B', 'break/continue/closers bind within the function floor and to the right record, else the parser raises', floor=25)
-    chk.rule('C01.S', 'stack discipline of the construct stack (induction step)', floor=2)
+    chk.rule('C01.S', 'stack discipline of the construct stack (induction step)', floor=1)
     chk.assumptions += ['runtime semantics of jump/label/return and of arrayLength/arrayGet are decided by C08 / C15; expression evaluation by C03',
                         'structural induction: handler behaviour depends only on the stack top / nearest loop record and the floor comparison (C01.S)']
     pm = ParserModel(chk.repo, 'C01.flow')
